@@ -1,1 +1,2 @@
 def join_abi_rule(run, fh, ff, rid): pass
+def grow_abi_rule(run, fh, rid): pass
